@@ -128,6 +128,8 @@ def run(repo, tier):
     from .C01 import extent_rules
     extent_rules(repo, res)
     run_axis(repo, res, MODS)
+    from .common import run_round
+    run_round(repo, res, MODS)
     res.floor('T-FRAME-pairs', 6)
     res.floor('T-AXIS', 150)
     res.floor('T-MIRROR', 150)
